@@ -4,9 +4,15 @@
 (* records over a pool of NNames names with <= 1 synonym, and EVERY        *)
 (* partial map names -> names as the remapping (chains, swaps, cycles,     *)
 (* partially applicable chains, onto synonyms, onto unknown names).        *)
+(* Shape = "three" (wave 11, C11-w11-M2): two fixed THREE-record           *)
+(* converters -- a (synonym a1), b, z  and  a (synonym a1), b (synonym     *)
+(* b1), z -- with every partial map of <= MaxPairs pairs over six names:   *)
+(* a skipped pair (its target belongs to another record) next to an        *)
+(* applicable pair that wants the skipped pair's source needs three        *)
+(* records.                                                                *)
 (***************************************************************************)
 EXTENDS World
-CONSTANTS MaxRecs, NNames
+CONSTANTS MaxRecs, NNames, Shape, MaxPairs
 
 Fold(ch) == <<ch>>
 MCDefaultDelim == <<58>>
@@ -20,14 +26,22 @@ Pool == {RecOf(p, ps) : <<p, ps>> \in {t \in Names \X Opt(Names) : t[1] \notin t
 PartialMaps == [Names -> Names \cup {NoneV}]
 ToPairs(f) == SortPairs({<<n, f[n]>> : n \in {n \in Names : f[n] # NoneV}})
 
+SmallMaps == {f \in PartialMaps : Cardinality({n \in Names : f[n] # NoneV}) <= MaxPairs}
+ThreeBases == {<<RecOf(<<1>>, {<<2>>}), RecOf(<<3>>, {}), RecOf(<<4>>, {})>>,
+               <<RecOf(<<1>>, {<<2>>}), RecOf(<<3>>, {<<5>>}), RecOf(<<4>>, {})>>}
 LastIsNew == hist[Len(hist)].k = "new"
-MCNext ==
+MCNextThree ==
+  \/ /\ Len(hist) = 0 /\ \E b \in ThreeBases : ANew(b, D)
+  \/ /\ Len(hist) = 1 /\ last = Ok
+     /\ \E f \in SmallMaps : ARemap("remap_curie", Len(convs), ToPairs(f))
+MCNextAll ==
   \/ /\ Len(hist) = 0 /\ \E r \in Pool : ANew(<<r>>, D)
   \/ /\ Len(hist) >= 1 /\ LastIsNew /\ Len(hist[Len(hist)].recs) < MaxRecs /\ last = Ok
      /\ \E r \in Pool : LexLT(hist[Len(hist)].recs[Len(hist[Len(hist)].recs)].p, r.p)
                         /\ ANew(Append(hist[Len(hist)].recs, r), D)
   \/ /\ Len(hist) >= 1 /\ LastIsNew /\ last = Ok
      /\ \E f \in PartialMaps : ARemap("remap_curie", Len(convs), ToPairs(f))
+MCNext == IF Shape = "three" THEN MCNextThree ELSE MCNextAll
 MCSpec == Init /\ [][MCNext]_vars
 
 LastOp == hist[Len(hist)]
